@@ -88,6 +88,10 @@ def corpus():
     ]
 
 
+def focus(changed):
+    R.set_focus(changed)
+
+
 def generate(rng, n):
     out = []
     for c in R.reader_boundary_cases():
@@ -96,7 +100,12 @@ def generate(rng, n):
     for k, c in enumerate(R.typed_special_cases()):
         out.append(dict(c, mode=R.MODES[k % 3]))
     while len(out) < n:
-        stream = rng.choice(["valid", "defect", "defect", "adversarial", "adversarial", "boundary"])
+        streams = ["valid", "defect", "defect", "adversarial", "adversarial", "boundary"]
+        if R.focused("reader.py", "record.py", "column.py"):
+            streams += ["defect", "adversarial", "adversarial"]      # malformed lines, column-line defects
+        if R.focused("sort_order.py"):
+            streams += ["valid", "valid", "defect"]                  # ordered files (gen_reader_case declares orders more often)
+        stream = rng.choice(streams)
         c = R.gen_reader_case(rng, stream)
         c["mode"] = rng.choice(["Strict", "Lenient", "Silent", "Silent", None])
         out.append(c)
